@@ -43,7 +43,7 @@ def run(tier):
         # every case with one importer, a third of those with two
         cases = [c for i, c in enumerate(cases) if not c["class"]["two"] or i % 3 == 0]
     cp, op = os.path.join(wd, "cases.ndjson"), os.path.join(wd, "out.ndjson")
-    C.ndjson_write(cp, [{k: c[k] for k in ("id", "a", "loaded", "mods")} for c in cases])
+    C.ndjson_write(cp, [{k: c[k] for k in ("id", "a", "mid", "loaded_mid", "loaded", "mods")} for c in cases])
     rc, _, err = C.run_vh(["replay", "frz", cp, op], check=False, timeout=3000)
     outs = {o["id"]: o for o in (C.ndjson_read(op) if os.path.exists(op) else [])}
     attempts = 0
